@@ -94,6 +94,12 @@ func validateJSONPatches(patches []byte) error {
 }
 
 func validateJSONPointer(pointer string) error {
+	// RFC 6901: a JSON pointer is empty or starts with '/'; the patch library ignores any text in front of
+	// the first '/', so "x/service" would address the services
+	if pointer != "" && !strings.HasPrefix(pointer, "/") {
+		return fmt.Errorf("%s: invalid JSON pointer", patch.JSONPatch)
+	}
+
 	if strings.HasPrefix(pointer, "/"+document.ServiceProperty) {
 		return fmt.Errorf("%s: cannot modify services", patch.JSONPatch)
 	}
